@@ -322,7 +322,9 @@ def judge(acc, cfg, items, obs, models):
                 acc.viol("dfxp-write-languages", "%s writer force=%r wrote divs %r" % (info["writer"], info["force"], [d[0] for d in divs]),
                          inp, stream=tag, divs=divs)
                 continue
-            if rr_err or not ok2:
+            if rr_err == "CaptionReadNoCaptions" and not any(c for _, c in divs):
+                acc.count("B_empty_document_rejected_by_reader")
+            elif rr_err or not ok2:
                 acc.viol("dfxp-reread-languages", "re-reading the DFXP output gives %r (%s)" % (rr, rr_err), inp, stream=tag)
                 continue
             mdoc = m[1] if info["writer"] == "legacy" and m[0] == 0 else m
